@@ -9,7 +9,15 @@ import (
 )
 
 func debugDump(what, repo string) int {
-	p, err := loadProg(filepath.Join(repo, "grpcgcp"), []string{".", "./multiendpoint", "./grpc_gcp"}, false, nil, "")
+	mod, pats := "grpcgcp", []string{".", "./multiendpoint", "./grpc_gcp"}
+	if i := strings.Index(what, "@"); i > 0 && strings.HasPrefix(what, "mod:") {
+		// mod:<dir>:<pat,pat>@ssa:<fn>
+		spec := strings.Split(what[4:i], ":")
+		mod = spec[0]
+		pats = strings.Split(spec[1], ",")
+		what = what[i+1:]
+	}
+	p, err := loadProg(filepath.Join(repo, mod), pats, false, nil, "")
 	if err != nil {
 		fmt.Println(err)
 		return 1
